@@ -1,5 +1,5 @@
 """C15 - generated options: fresh unpredictable challenges, caller values unchanged."""
-import json, os, random, collections
+import os, json, os, random, collections
 from harness import fw, impl, optsim, oracle
 
 TRUSTED = [
@@ -36,11 +36,26 @@ def run(tier, seed):
                 if rng.random() < 0.08:
                     a[rng.choice(["rp_id", "rp_name", "user_name"] if is_reg else ["rp_id"])] = ""
                 n_before = len(tape.reads)
+                got = []
+                def keep(x):
+                    got.append(x)
+                    return x
                 if is_reg:
-                    il = impl.outcome(lambda: webauthn.generate_registration_options(**optsim.reg_kwargs(a)), optsim.pr_creation)
+                    il = impl.outcome(lambda: keep(webauthn.generate_registration_options(**optsim.reg_kwargs(a))), optsim.pr_creation)
                 else:
-                    il = impl.outcome(lambda: webauthn.generate_authentication_options(**optsim.auth_kwargs(a)), optsim.pr_request)
+                    il = impl.outcome(lambda: keep(webauthn.generate_authentication_options(**optsim.auth_kwargs(a))), optsim.pr_request)
                 new_reads = tape.reads[n_before:]
+                if got and rng.random() < 0.5:
+                    # what a caller may do to the object it was handed (after this call has been evaluated): later calls must not see it
+                    o = got[0]
+                    try:
+                        for lst in (getattr(o, "allow_credentials", None), getattr(o, "exclude_credentials", None), getattr(o, "hints", None)):
+                            if isinstance(lst, list):
+                                lst.append(optsim.py_descriptor({"id": b"someone-else's-credential", "transports": ["usb"]}))
+                        if getattr(o, "pub_key_cred_params", None):
+                            o.pub_key_cred_params.pop()
+                    except Exception:
+                        pass
                 chk.evals += 1
                 rp = {"entry": "generate_registration_options" if is_reg else "generate_authentication_options", "args": {k: (v.hex() if isinstance(v, bytes) else v) for k, v in a.items() if k not in ("exclude", "allow")},
                       "impl": il[:600], "os_reads": [r.hex() for r in new_reads], "position": pos}
@@ -109,6 +124,30 @@ def run(tier, seed):
                 chk.count(("reg:" if is_reg else "auth:") + ("OK" if il.startswith("OK") else il))
                 if h == 0 and pos < 2:
                     chk.sample({"args": rp["args"], "impl": il[:200], "os_reads": len(new_reads)})
+    # a failing OS random source is an error, never a reason to fall back to anything else
+    import secrets
+    for exc in (NotImplementedError, OSError, PermissionError):
+        for fn, kw in ((webauthn.generate_registration_options, dict(rp_id="a", rp_name="b", user_name="c")), (webauthn.generate_authentication_options, dict(rp_id="a")),
+                       (webauthn.generate_registration_options, dict(rp_id="a", rp_name="b", user_name="c", challenge=b"given-challenge"))):
+            def broken(n, _e=exc):
+                raise _e("no entropy source")
+            saved = (os.urandom, random._urandom, secrets.token_bytes, getattr(secrets.SystemRandom, "randbytes", None))
+            os.urandom = broken
+            random._urandom = broken
+            secrets.token_bytes = lambda n=32: broken(n)
+            random.seed(7)
+            try:
+                try:
+                    o = fn(**kw)
+                    val = "returned challenge " + o.challenge.hex()[:32] + ("" if not hasattr(o, "user") else " user id " + o.user.id.hex()[:32])
+                except Exception as e:
+                    val = "raised " + type(e).__name__
+            finally:
+                os.urandom, random._urandom, secrets.token_bytes = saved[:3]
+            chk.evals += 1
+            if not val.startswith("raised"):
+                chk.violation(f"with the OS random source failing ({exc.__name__}) option generation still {val}", f"entropy-failure-fallback {fn.__name__}",
+                              {"entry": fn.__name__, "kwargs": {k: (v.hex() if isinstance(v, bytes) else v) for k, v in kw.items()}, "source_failure": exc.__name__, "outcome": val})
     # default algorithms offered = accepted by default (behavioural)
     import inspect
     from harness import regsim, authsim
